@@ -33,6 +33,7 @@ type payload struct {
 	Inputs  map[string]*lang.Val `json:"inputs,omitempty"`
 	Stdlib  bool                 `json:"stdlib,omitempty"` // use the real stdlib module map instead of the host module
 	DataMod bool                 `json:"datamod,omitempty"` // compile with the function-free data module and decode WITHOUT a module map
+	prog    *lang.Program        // generated cases only (not saved): lets the failure path ask the reference interpreter
 }
 
 // dataModule is a builtin module without functions: bytecode using it can be
@@ -239,6 +240,36 @@ func check(t ev.TB, test string, p payload, classes []string) {
 		return
 	}
 	for _, r := range runs[1:] {
+		if r.res.Status != base.res.Status || r.res.ErrText != base.res.ErrText || bridge.DescribeGlobals(base.res.Globals, nil) != bridge.DescribeGlobals(r.res.Globals, nil) {
+			// Before a behavioural difference is reported: is the program in
+			// the property's domain at all? The generator's filter tries four
+			// fixed map orders only. (a) the reference interpreter enumerates
+			// every order of every map traversal; (b) the fresh bytecode is
+			// compiled and run 16 more times: if it does not agree with itself
+			// the result depends on Go's map iteration order.
+			if p.prog != nil {
+				cfg := ref.DefaultConfig()
+				cfg.HostMods = bridge.HostModRef()
+				if refx.OrderDependent(p.prog, p.Inputs, cfg) {
+					ev.Discard("excluded:capacity-or-map-order-dependent (exhaustive enumeration after a mismatch)")
+					return
+				}
+			}
+			key := func(x *bridge.VMResult) string {
+				return x.Status + "|" + x.ErrText + "|" + bridge.DescribeGlobals(x.Globals, nil)
+			}
+			for i := 0; i < 16; i++ {
+				u, err := compile()
+				if err != nil {
+					break
+				}
+				again := bridge.RunVM(u.Bytecode, bridge.NewGlobals(u.Symbols, p.Inputs), u.Index, budget, -1)
+				if key(again) != key(base.res) {
+					ev.Discard("excluded:map-order-dependent (the fresh bytecode gives different results from run to run)")
+					return
+				}
+			}
+		}
 		if r.res.Status != base.res.Status {
 			ev.Fail(t, test, p, "%s: status %s (%s), %s: status %s (%s)\n--- source ---\n%s", base.name, base.res.Status, base.res.ErrText, r.name, r.res.Status, r.res.ErrText, clip(p.Source))
 			return
@@ -309,7 +340,7 @@ func TestDedupSerialize(t *testing.T) {
 			return
 		}
 		src, mods := renderProg(p)
-		check(t, "TestDedupSerialize", payload{Source: src, Modules: mods, Inputs: inputs}, nil)
+		check(t, "TestDedupSerialize", payload{Source: src, Modules: mods, Inputs: inputs, prog: p}, nil)
 	})
 }
 
